@@ -178,6 +178,20 @@ func (p *Program) checkLoop(fn *ssa.Function, l *Loop, ps *progressSets) LoopVer
 					}
 					continue
 				}
+				if cc.IsInvoke() {
+					// an interface of the repository whose every implementation advances the cursor
+					ts := p.calleesAt(x)
+					all := len(ts) > 0
+					for _, t := range ts {
+						if !ps.advancing[t] {
+							all = false
+						}
+					}
+					if all {
+						mark(b, "argument cursor advanced through interface method "+cc.Method.Name(), x)
+						continue
+					}
+				}
 				if c := staticCallee(cc); c != nil {
 					if ps.advancing[c] {
 						mark(b, "argument cursor advanced by "+fnName(c), x)
